@@ -1,6 +1,7 @@
 import AvroModel.Lemmas.ReadOk
 import AvroModel.Lemmas.BuildOk
 import AvroModel.Lemmas.NoPanic
+import AvroModel.Lemmas.ReadBudget
 /-!
 # C03 — Reader decodes every spec-legal encoding of a datum to that datum
 
@@ -41,6 +42,32 @@ theorem misfit_is_error (c : Codec) (a : ASchema) (hcf : CodecFor c a) (n m : Na
   have := (readOkAt env n).read m c a p v bs rest dst hcf he
   rw [hfit] at this; exact this
 
+/-- **Main theorem with an explicit step budget.** As `decode`, for every step budget
+`n ≥ readBudget c v = Codec.sz c + 2 * Value.sz v + 2` — a function of the codec tree and the datum only
+(not of the writer's plan, the destination or the trailing input). The result is exact: the datum's
+value and exactly `rest` when the datum fits (`ofAvro … = .ok g`), `.err` when it does not
+(`.misfit`); for combinations typing excludes (`.illtyped`) the call still finishes (`≠ .fuel`).
+`ReadExact` spells out these three cases; no alternative "out of budget" remains. -/
+theorem decode_budget (reg : Reg) (hreg : ∀ id, reg.custom id = none) (nb fa n m : Nat)
+    (s : Schema) (T : Option GoType) (oe : Bool) (c : Codec) (a : ASchema)
+    (p : Plan) (v : Value) (bs rest : Bytes) (dst : GoVal)
+    (hb : buildCodec reg nb s T oe = .ok c) (hc : classify fa s = some a) (he : encode p a v = some bs)
+    (hn : readBudget c v ≤ n) :
+    ReadExact (read env n c (bs ++ rest) dst) (ofAvro env m c v dst) rest :=
+  read_budget_spec env ((buildOkAt reg hreg nb).build s T oe c hb fa a hc) he hn rest m dst
+
+/-- the datum fits: the value and the exact remainder are returned -/
+theorem decode_ok_budget (c : Codec) (a : ASchema) (hcf : CodecFor c a) (n m : Nat) (p : Plan) (v : Value) (bs rest : Bytes)
+    (dst g : GoVal) (he : encode p a v = some bs) (hfit : ofAvro env m c v dst = .ok g) (hn : readBudget c v ≤ n) :
+    read env n c (bs ++ rest) dst = .ok (g, rest) :=
+  read_exact env hcf he hn rest hfit
+
+/-- the datum does not fit the Go field: an error -/
+theorem misfit_is_error_budget (c : Codec) (a : ASchema) (hcf : CodecFor c a) (n m : Nat) (p : Plan) (v : Value) (bs rest : Bytes)
+    (dst : GoVal) (he : encode p a v = some bs) (hfit : ofAvro env m c v dst = .misfit) (hn : readBudget c v ≤ n) :
+    read env n c (bs ++ rest) dst = .err :=
+  read_misfit env hcf he hn rest hfit
+
 /-- an integer that does not fit the destination width is a misfit -/
 theorem int_out_of_range (m w : Nat) (o : Bool) (i : Int) (dst : GoVal) (h : ¬ inRange w i) :
     ofAvro env (m + 1) (.int w o) (.int i) dst = .misfit := by
@@ -65,5 +92,23 @@ example :
       (.union [.array .long, .null]) (.union 0 (.array [.int 1, .int (-1), .int 64])) =
       some [0, 1, 2, 2, 4, 1, 0x80, 0x01, 0] := by
   simp [encode, encodeItems, encBlocks, writeVarint, zigzag, putUvarint, inRange, Plan.leaf]
+
+/-- non-vacuity of `decode_ok_budget`: that encoding read into an empty slice with budget
+`readBudget = 2 + 2 * 5 + 2 = 14`, whatever follows -/
+example (rest : Bytes) :
+    read env 14 (.unionOne (.array (.int 64 false) false) 0) ([0, 1, 2, 2, 4, 1, 0x80, 0x01, 0] ++ rest) (.slice []) =
+      .ok (.slice [.int 1, .int (-1), .int 64], rest) :=
+  decode_ok_budget env _ (.union [.array .long, .null]) (.unionOne0 (.array .intL)) 14 4
+    (.node [] [.node [(1, true), (2, false)] [.leaf, .leaf, .leaf]]) (.union 0 (.array [.int 1, .int (-1), .int 64])) _ rest _ _
+    (by simp [encode, encodeItems, encBlocks, writeVarint, zigzag, putUvarint, inRange, Plan.leaf])
+    (by simp [ofAvro, mapFit, inRange, Codec.zero])
+    (by simp [readBudget, Codec.sz, Value.sz, Value.szList])
+
+/-- non-vacuity of `misfit_is_error_budget`: 300 does not fit an `int8` field -/
+example (rest : Bytes) : read env 2 (.int 8 false) ([0xd8, 0x04] ++ rest) (.int 0) = .err :=
+  misfit_is_error_budget env _ .long .intL 2 1 .leaf (.int 300) _ rest _
+    (by simp [encode, writeVarint, zigzag, putUvarint, inRange])
+    (by simp [ofAvro, inRange])
+    (by simp [readBudget, Codec.sz, Value.sz])
 
 end Avro.C03
